@@ -99,7 +99,6 @@ def case_sorted_geometry(ctx, kind, n, geom_map):
     md0 = _copy.deepcopy(md)
     thu = ctx.call("geometry_unsorted", spikeglx.geometry_from_meta, md, sort=False)
     res = ctx.call("geometry_sorted", spikeglx.geometry_from_meta, md, return_index=True, sort=True)
-    purity.oblige_untouched(ctx, "metadata_dictionary_left_untouched", {k: (v if not isinstance(v, list) else list(v)) for k, v in md.items()}, purity.snap({k: (v if not isinstance(v, list) else list(v)) for k, v in md0.items()}))
     thu2 = ctx.call("geometry_unsorted", spikeglx.geometry_from_meta, md, sort=False)
     purity.oblige_same_result(ctx, "second_identical_call_gives_the_same_geometry", {k: thu[k] for k in sorted(thu)}, {k: thu2[k] for k in sorted(thu2)})
     th, inds = res
